@@ -9,33 +9,51 @@ Definition add_opt (k : okind) (o : str) (pa : parser) : parser :=
   match k with
   | KFlag => set_flags pa (p_flags pa ++ [o])
   | KPos => set_poss pa (p_poss pa ++ [o])
+  | KVal => set_vals pa (p_vals pa ++ [o])
   end.
+
+(* the kinds that have an option string '--name' *)
+Definition is_optional (k : okind) : bool := match k with KPos => false | _ => true end.
+
+Definition okind_eqb (a b : okind) : bool :=
+  match a, b with KFlag, KFlag | KPos, KPos | KVal, KVal => true | _, _ => false end.
+
+(* the list of a parser that holds the arguments of kind k *)
+Definition p_list (k : okind) (pa : parser) : list str :=
+  match k with KFlag => p_flags pa | KPos => p_poss pa | KVal => p_vals pa end.
 
 (* argparse raises for an option string that the parser already has *)
 Definition fresh_for (nl : bool) (k : okind) (o : str) (pa : parser) : Prop :=
-  k = KFlag -> mem (flag_str o) (std_option_strings nl) = false /\ ~ In o (p_flags pa).
+  is_optional k = true ->
+  mem (flag_str o) (std_option_strings nl) = false /\ ~ In o (p_flags pa) /\ ~ In o (p_vals pa).
+
+Lemma opt_taken_false nl o pa :
+  opt_taken nl o pa = false <->
+  mem (flag_str o) (std_option_strings nl) = false /\ ~ In o (p_flags pa) /\ ~ In o (p_vals pa).
+Proof. unfold opt_taken. rewrite !orb_false_iff, <- !mem_false. tauto. Qed.
 
 Lemma add_local_ok nl k o pa : fresh_for nl k o pa -> add_local nl k o pa = Ret (add_opt k o pa).
 Proof.
-  intros F. destruct k; cbn [add_local add_opt]; [|reflexivity].
-  destruct (F eq_refl) as (H1 & H2). rewrite H1. apply mem_false in H2. rewrite H2. reflexivity.
+  intros F. destruct k; cbn [add_local add_opt]; [|reflexivity|];
+    rewrite (proj2 (opt_taken_false nl o pa) (F eq_refl)); reflexivity.
 Qed.
 
-Lemma add_local_conflict nl o pa :
-  ~ fresh_for nl KFlag o pa -> add_local nl KFlag o pa = Raise ArgumentError.
+Lemma add_local_conflict nl k o pa :
+  ~ fresh_for nl k o pa -> add_local nl k o pa = Raise ArgumentError.
 Proof.
-  intros F. cbn [add_local].
-  destruct (mem (flag_str o) (std_option_strings nl)) eqn:E1; [reflexivity|].
-  destruct (mem o (p_flags pa)) eqn:E2; [reflexivity|].
-  exfalso. apply F. intros _. split; [exact E1|apply mem_false; exact E2].
+  intros F. destruct (opt_taken nl o pa) eqn:E.
+  - destruct k; cbn [add_local]; rewrite ?E; try reflexivity. exfalso. apply F. unfold fresh_for. cbn. intros [=].
+  - exfalso. apply F. unfold fresh_for. intros _. apply opt_taken_false. exact E.
 Qed.
 
 Lemma add_opt_fields k o pa :
   p_id (add_opt k o pa) = p_id pa /\ p_internal (add_opt k o pa) = p_internal pa /\
   p_deps (add_opt k o pa) = p_deps pa /\
-  p_flags (add_opt k o pa) = p_flags pa ++ (match k with KFlag => [o] | KPos => [] end) /\
-  p_poss (add_opt k o pa) = p_poss pa ++ (match k with KFlag => [] | KPos => [o] end).
-Proof. destruct k; cbn; rewrite ?app_nil_r; auto. Qed.
+  forall k0, p_list k0 (add_opt k o pa) = p_list k0 pa ++ (if okind_eqb k k0 then [o] else []).
+Proof.
+  split; [destruct k; reflexivity|]. split; [destruct k; reflexivity|]. split; [destruct k; reflexivity|].
+  intros k0. destruct k, k0; cbn; rewrite ?app_nil_r; reflexivity.
+Qed.
 
 (* propagation loop: "for dependent_parser in self._dependent_parsers.values()" *)
 Lemma update_deps_closed nl k o (st : state) :
@@ -100,8 +118,7 @@ Definition oentry_ok (ds : list decl) (done : list op) (d : decl) (e : str * par
   fst e = d_name d /\ p_internal (snd e) = d_internal d /\
   NoDup (dep_names (snd e)) /\ ~ In (fst e) (dep_names (snd e)) /\
   (forall c, In c (dep_names (snd e)) <-> anc ds (d_name d) c) /\
-  (forall o, In o (p_flags (snd e)) <-> exists t, In (t, KFlag, o) done /\ in_scope ds t (d_name d)) /\
-  (forall o, In o (p_poss (snd e)) <-> exists t, In (t, KPos, o) done /\ in_scope ds t (d_name d)).
+  (forall k o, In o (p_list k (snd e)) <-> exists t, In (t, k, o) done /\ in_scope ds t (d_name d)).
 
 Definition OInv (ds : list decl) (done : list op) (st : state) : Prop :=
   Forall2 (oentry_ok ds done) ds st.
@@ -112,10 +129,10 @@ Proof. intros H. induction 1; constructor; auto. Qed.
 
 Lemma OInv_init ds st : Inv ds st -> OInv ds [] st.
 Proof.
-  apply Forall2_impl. intros d e (E1 & E2 & E3 & E4 & E5 & E6 & E7).
-  unfold oentry_ok. rewrite E3, E4.
+  apply Forall2_impl. intros d e (E1 & E2 & E3 & E4 & E4v & E5 & E6 & E7).
+  unfold oentry_ok.
   repeat (split; [assumption|]).
-  split; intros o; (split; [intros []|intros (t & [] & _)]).
+  intros k o. destruct k; cbn [p_list]; rewrite ?E3, ?E4, ?E4v; (split; [intros []|intros (t & [] & _)]).
 Qed.
 
 Lemma OInv_keys_gen ds0 done ds (st : state) :
@@ -132,10 +149,36 @@ Definition op_ok (ds : list decl) (nl : bool) (x : op) : Prop :=
   match x with
   | (t, k, o) =>
       (match t with TGlobal => True | TCmd p => In p (names ds) end) /\
-      (k = KFlag -> mem (flag_str o) (std_option_strings nl) = false)
+      (is_optional k = true -> mem (flag_str o) (std_option_strings nl) = false)
   end.
 
 Definition op_name (x : op) : str := snd x.
+
+Lemma clause_add ds (done : list op) t k o c k0 (L0 : list str) :
+  in_scope ds t c ->
+  (forall o', In o' L0 <-> exists t', In (t', k0, o') done /\ in_scope ds t' c) ->
+  forall o', In o' (L0 ++ (if okind_eqb k k0 then [o] else [])) <->
+             exists t', In (t', k0, o') (done ++ [(t, k, o)]) /\ in_scope ds t' c.
+Proof.
+  intros S H o'. rewrite in_app_iff, H. split.
+  - intros [(t' & H1 & H2)|Hi].
+    + exists t'. split; [apply in_or_app; left; exact H1|exact H2].
+    + destruct k, k0; cbn [okind_eqb] in Hi; try (destruct Hi; fail); destruct Hi as [<-|[]];
+        exists t; (split; [apply in_or_app; right; left; reflexivity|exact S]).
+  - intros (t' & H1 & H2). apply in_app_or in H1 as [H1|[H1|[]]]; [left; eauto|].
+    inversion H1. subst. right. destruct k0; left; reflexivity.
+Qed.
+
+Lemma clause_keep ds (done : list op) t k o c k0 (L0 : list str) :
+  ~ in_scope ds t c ->
+  (forall o', In o' L0 <-> exists t', In (t', k0, o') done /\ in_scope ds t' c) ->
+  forall o', In o' L0 <-> exists t', In (t', k0, o') (done ++ [(t, k, o)]) /\ in_scope ds t' c.
+Proof.
+  intros S H o'. rewrite H. split.
+  - intros (t' & H1 & H2). exists t'. split; [apply in_or_app; left; exact H1|exact H2].
+  - intros (t' & H1 & H2). apply in_app_or in H1 as [H1|[H1|[]]]; [eauto|].
+    inversion H1. subst. contradiction.
+Qed.
 
 Lemma OInv_step ds nl done st t k o :
   OInv ds done st -> op_ok ds nl (t, k, o) -> ~ In o (map op_name done) ->
@@ -143,10 +186,11 @@ Lemma OInv_step ds nl done st t k o :
 Proof.
   intros I (Ht & Hk) Hfresh.
   assert (forall e, In e st -> fresh_for nl k o (snd e)) as F.
-  { intros e He Ek. split; [apply Hk; exact Ek|]. intros Ho.
-    destruct (Forall2_in_r _ _ _ _ I He) as (d & Hd & (X1 & X2 & X3 & X4 & X5 & Fl & X7)).
-    apply Fl in Ho. destruct Ho as (t' & Ht' & Hs'). apply Hfresh.
-    change o with (op_name (t', KFlag, o)). apply in_map. exact Ht'. }
+  { intros e He Ek. split; [apply Hk; exact Ek|].
+    destruct (Forall2_in_r _ _ _ _ I He) as (d & Hd & (X1 & X2 & X3 & X4 & X5 & Fl)).
+    split; intros Ho; [apply (Fl KFlag) in Ho|apply (Fl KVal) in Ho];
+      destruct Ho as (t' & Ht' & Hs'); apply Hfresh;
+      [change o with (op_name (t', KFlag, o))|change o with (op_name (t', KVal, o))]; apply in_map; exact Ht'. }
   assert (match t with
           | TGlobal => True
           | TCmd p => exists pa, lookup p st = Some pa /\ NoDup (dep_names pa) /\ ~ In p (dep_names pa) /\
@@ -161,44 +205,20 @@ Proof.
   - apply apply_op_closed; [exact F|]. destruct t as [|p]; [exact Logic.I|].
     destruct T as (pa & L & A & B & _). eauto.
   - unfold OInv. eapply Forall2_map_r; [exact I|].
-    intros d0 e Hd0 (E1 & E2 & E3 & E4 & E5 & E6 & E7).
+    intros d0 e Hd0 (E1 & E2 & E3 & E4 & E5 & E6).
     assert (in_scope_b t st (fst e) = true <-> in_scope ds t (d_name d0)) as SC.
     { destruct t as [|p]; cbn [in_scope_b in_scope]; [tauto|].
       destruct T as (pa & -> & _ & _ & A). rewrite orb_true_iff, str_eqb_eq, mem_In, A, E1. tauto. }
     unfold oentry_ok. cbn [fst snd].
     destruct (in_scope_b t st (fst e)) eqn:Eb.
-    + destruct (add_opt_fields k o (snd e)) as (_ & A2 & A3 & A4 & A5).
-      unfold dep_names in *. rewrite A2, A3, A4, A5.
+    + destruct (add_opt_fields k o (snd e)) as (_ & A2 & A3 & A4).
+      unfold dep_names in *. rewrite A2, A3.
       repeat (split; [assumption|]).
       assert (in_scope ds t (d_name d0)) as S by (apply SC; reflexivity).
-      split; intros o'; rewrite in_app_iff; [rewrite E6|rewrite E7].
-      * split.
-        -- intros [(t' & H1 & H2)|H].
-           ++ exists t'. split; [apply in_or_app; left; exact H1|exact H2].
-           ++ destruct k; [|destruct H]. destruct H as [<-|[]]. exists t.
-              split; [apply in_or_app; right; left; reflexivity|exact S].
-        -- intros (t' & H1 & H2). apply in_app_or in H1 as [H1|[H1|[]]].
-           ++ left. eauto.
-           ++ right. inversion H1. subst. left. reflexivity.
-      * split.
-        -- intros [(t' & H1 & H2)|H].
-           ++ exists t'. split; [apply in_or_app; left; exact H1|exact H2].
-           ++ destruct k; [destruct H|]. destruct H as [<-|[]]. exists t.
-              split; [apply in_or_app; right; left; reflexivity|exact S].
-        -- intros (t' & H1 & H2). apply in_app_or in H1 as [H1|[H1|[]]].
-           ++ left. eauto.
-           ++ right. inversion H1. subst. left. reflexivity.
+      intros k0. rewrite A4. apply clause_add; [exact S|apply E6].
     + repeat (split; [assumption|]).
       assert (~ in_scope ds t (d_name d0)) as S by (intros S; apply SC in S; discriminate).
-      split; intros o'; [rewrite E6|rewrite E7].
-      * split.
-        -- intros (t' & H1 & H2). exists t'. split; [apply in_or_app; left; exact H1|exact H2].
-        -- intros (t' & H1 & H2). apply in_app_or in H1 as [H1|[H1|[]]]; [eauto|].
-           inversion H1. subst. contradiction.
-      * split.
-        -- intros (t' & H1 & H2). exists t'. split; [apply in_or_app; left; exact H1|exact H2].
-        -- intros (t' & H1 & H2). apply in_app_or in H1 as [H1|[H1|[]]]; [eauto|].
-           inversion H1. subst. contradiction.
+      intros k0. apply clause_keep; [exact S|apply E6].
 Qed.
 
 Definition ops_ok (ds : list decl) (nl : bool) (ops : list op) : Prop :=
@@ -250,18 +270,13 @@ Lemma option_scope_state_l ds st nl ops :
   exists st', apply_ops nl st ops = Ret st' /\ keys st' = names ds /\
     forall c pa, In (c, pa) st' ->
       (exists d, In d ds /\ d_name d = c /\ p_internal pa = d_internal d) /\
-      forall t k o, In (t, k, o) ops ->
-        (In o (match k with KFlag => p_flags pa | KPos => p_poss pa end) <-> in_scope ds t c).
+      forall t k o, In (t, k, o) ops -> (In o (p_list k pa) <-> in_scope ds t c).
 Proof.
   intros E OK. destruct (apply_ops_ok ds st nl ops E OK) as (st' & E' & I).
   exists st'. split; [exact E'|]. split; [eapply OInv_keys; exact I|].
-  intros c pa H. destruct (Forall2_in_r _ _ _ _ I H) as (d & Hd & (E1 & E2 & _ & _ & _ & E6 & E7)).
+  intros c pa H. destruct (Forall2_in_r _ _ _ _ I H) as (d & Hd & (E1 & E2 & _ & _ & _ & E6)).
   cbn [fst snd] in *. subst c. split; [exists d; auto|].
-  intros t k o Ho. destruct OK as (ND & _). destruct k.
-  - rewrite E6. split.
-    + intros (t' & H1 & H2). destruct (op_name_inj ops t t' KFlag KFlag o ND Ho H1) as (-> & _). exact H2.
-    + intros S. eauto.
-  - rewrite E7. split.
-    + intros (t' & H1 & H2). destruct (op_name_inj ops t t' KPos KPos o ND Ho H1) as (-> & _). exact H2.
-    + intros S. eauto.
+  intros t k o Ho. destruct OK as (ND & _). rewrite E6. split.
+  - intros (t' & H1 & H2). destruct (op_name_inj ops t t' k k o ND Ho H1) as (-> & _). exact H2.
+  - intros S. eauto.
 Qed.
